@@ -115,19 +115,21 @@ theorem ptrsToks_notQual (ps : List Ptr) (rest : Toks) (h : PtrStop rest) :
 /-- C++ has no cv-qualified references: `& const` is outside the meaning domain -/
 def RefsPlain (ps : List Ptr) : Prop := ∀ p ∈ ps, p.kind = .ref → p.const = false ∧ p.volatile = false
 
-theorem cxxPtrOps_print : ∀ (ps : List Ptr) (rest : Toks) (n : Nat), RefsPlain ps → PtrStop rest → n ≥ ps.length + 1 →
+theorem cxxPtrOps_print : ∀ (ps : List Ptr) (rest : Toks) (n : Nat), RefsPlain ps → PtrStop rest → n ≥ ps.length →
     cxxPtrOps n (ptrsToks false ps ++ rest) = (ps.map ptrOp, rest) := by
   intro ps
   induction ps with
   | nil =>
     intro rest n _ h hn
-    obtain ⟨m, rfl⟩ : ∃ m, n = m + 1 := ⟨n - 1, by omega⟩
-    cases rest with
-    | nil => rfl
-    | cons t ts => obtain ⟨_, h2, h3⟩ := h; simp [ptrsToks, cxxPtrOps, h2, h3]
+    cases n with
+    | zero => rfl
+    | succ m =>
+      cases rest with
+      | nil => rfl
+      | cons t ts => obtain ⟨_, h2, h3⟩ := h; simp [ptrsToks, cxxPtrOps, h2, h3]
   | cons p ps' ih =>
     intro rest n hrp h hn
-    obtain ⟨m, rfl⟩ : ∃ m, n = m + 1 := ⟨n - 1, by omega⟩
+    obtain ⟨m, rfl⟩ : ∃ m, n = m + 1 := ⟨n - 1, by simp at hn; omega⟩
     have hi := ih rest m (fun q hq => hrp q (by simp [hq])) h (by simp at hn; omega)
     have hp := hrp p (by simp)
     obtain ⟨k, c, v⟩ := p
@@ -196,15 +198,11 @@ theorem skipAttrs_print : ∀ (attrs : List (Str × AttrVal)) (rest : Toks) (n :
     intro rest n _ hr hn
     obtain ⟨m, rfl⟩ : ∃ m, n = m + 1 := ⟨n - 1, by omega⟩
     simp only [attrsToks, List.nil_append]
-    rw [skipAttrs]
     cases rest with
     | nil => rfl
     | cons t ts =>
-      cases ts with
-      | nil => rfl
-      | cons t2 ts2 =>
-        have : t.typ ≠ .PLUS := by rcases hr with h | h <;> simp [h]
-        simp [this]
+      have : t.typ ≠ .PLUS := by rcases hr with h | h <;> simp [h]
+      simp [skipAttrs, this]
   | cons a as ih =>
     intro rest n hwf hr hn
     obtain ⟨m, rfl⟩ : ∃ m, n = m + 1 := ⟨n - 1, by omega⟩
@@ -221,20 +219,105 @@ theorem skipAttrs_print : ∀ (attrs : List (Str × AttrVal)) (rest : Toks) (n :
       obtain ⟨hc, h1, h2⟩ := hk
       simp only [attrsToks, h1, h2, or_self, if_false, AttrVal.toks, List.append_assoc, List.cons_append,
         List.nil_append]
-      rw [skipAttrs]
       generalize hts : attrsToks as ++ rest = ts at hnext hi
       cases ts with
-      | nil => simp [tk, nameTok, hc]
+      | nil =>
+        have : rest = [] := by
+          cases as with
+          | nil => simpa [attrsToks] using hts
+          | cons a' as' => simp at hts; exact hts.2
+        simp [skipAttrs, tk, nameTok, hc, this]
       | cons t ts' =>
         obtain ⟨n1, n2⟩ := hnext
-        simp [tk, nameTok, hc, n1, n2, hi]
+        simp [skipAttrs, tk, nameTok, hc, n1, n2, hi]
     | text parts =>
       obtain ⟨hc, h1, h2, hb⟩ := hk
       simp only [attrsToks, h1, h2, or_self, if_false, AttrVal.toks, List.append_assoc, List.cons_append,
         List.nil_append]
-      rw [skipAttrs]
       have hsp := skipParen_print parts 0 (attrsToks as ++ rest) hb
-      simp only [tk] at hsp
-      simp [tk, nameTok, hc, hsp, hi]
+      simp [tk] at hsp
+      simp [skipAttrs, tk, nameTok, hc, hsp, hi]
+
+/-! ### suffixes -/
+
+def NoSuffix : Toks → Prop
+  | [] => True
+  | t :: _ => t.typ ≠ .LBRACKET ∧ t.typ ≠ .LPAREN
+
+theorem cxxSuffixes_none (env : Env) (m : Nat) (R : Toks) (h : NoSuffix R) :
+    cxxSuffixes env (m + 1) R = some ([], R) := by
+  cases R with
+  | nil => rfl
+  | cons t ts => simp [cxxSuffixes, h.1, h.2]
+
+theorem cxxSuffixes_arrays (env : Env) : ∀ (arr : List Expr) (R : Toks) (n : Nat),
+    (∀ e ∈ arr, SimpleDim e) → NoSuffix R → n ≥ arr.length + 1 →
+    cxxSuffixes env n (arraysToks arr ++ R) = some (arr.map (fun e => Op.arr (printExpr e)), R) := by
+  intro arr
+  induction arr with
+  | nil =>
+    intro R n _ h hn
+    obtain ⟨m, rfl⟩ : ∃ m, n = m + 1 := ⟨n - 1, by omega⟩
+    simpa [arraysToks] using cxxSuffixes_none env m R h
+  | cons e es ih =>
+    intro R n hs h hn
+    obtain ⟨m, rfl⟩ : ∃ m, n = m + 1 := ⟨n - 1, by omega⟩
+    have hb := cxxBound_simple e (hs e (by simp)) (arraysToks es ++ R)
+    have hi := ih R m (fun x hx => hs x (by simp [hx])) h (by simp at hn; omega)
+    simp only [arraysToks, List.append_assoc, List.cons_append, List.nil_append]
+    rw [cxxSuffixes]
+    simp [tk] at hb
+    simp [tk, hb, hi]
+
+theorem arraysToks_noLParen (arr : List Expr) (R : Toks) (h : Hd K4 R) :
+    NotKind .TYPE_QUALIFIER (arraysToks arr ++ R) ∧ Hd K4 (arraysToks arr ++ R) := by
+  cases arr with
+  | nil => exact ⟨(Hd_K4_cases (env := default) h).2.2.2, h⟩
+  | cons e es => simp [arraysToks, NotKind, Hd, tk, K4]
+
+theorem K4_noSuffixAfterArrays {R : Toks} (h : Hd (fun k => k = .PLUS ∨ k = .COMMA ∨ k = .RPAREN) R) : NoSuffix R := by
+  cases R with
+  | nil => trivial
+  | cons t ts =>
+    simp only [Hd] at h
+    rcases (by simpa using h : t.typ = .PLUS ∨ t.typ = .COMMA ∨ t.typ = .RPAREN) with h | h | h <;> simp [NoSuffix, h]
+
+/-- suffix part of a rendered declaration: `(params) const? [dims]` -/
+theorem cxxSuffixes_func (env : Env) (ps : List Decl) (tys : List CxxType) (fc : Bool) (arr : List Expr)
+    (R : Toks) (n : Nat)
+    (hp : ∀ X, cxxParams env n (paramsInner ps ++ tk .RPAREN ")" :: X) = some (tys, X))
+    (harr : ∀ e ∈ arr, SimpleDim e) (hR : Hd (fun k => k = .PLUS ∨ k = .COMMA ∨ k = .RPAREN) R)
+    (hn : n ≥ arr.length + 1) :
+    cxxSuffixes env (n + 1) (tk .LPAREN "(" :: (paramsInner ps ++ tk .RPAREN ")" :: (fcToks fc ++ (arraysToks arr ++ R))))
+      = some (Op.func tys fc :: arr.map (fun e => Op.arr (printExpr e)), R) := by
+  have ha := cxxSuffixes_arrays env arr R n harr (K4_noSuffixAfterArrays hR) hn
+  rw [cxxSuffixes]
+  simp only [tk] at hp
+  simp only [tk, hp]
+  cases fc with
+  | true => simp [fcToks, tk, ha]
+  | false =>
+    simp only [fcToks, Bool.false_eq_true, if_false, List.nil_append]
+    have hK : Hd K4 R := by
+      cases R with
+      | nil => trivial
+      | cons t ts =>
+        simp only [Hd] at hR ⊢
+        rcases (by simpa using hR : t.typ = .PLUS ∨ t.typ = .COMMA ∨ t.typ = .RPAREN) with h | h | h <;> simp [h, K4]
+    obtain ⟨hq, _⟩ := arraysToks_noLParen arr R hK
+    generalize hT : arraysToks arr ++ R = T at ha hq
+    cases T with
+    | nil =>
+      have : arr = [] := by
+        cases arr with
+        | nil => rfl
+        | cons e es => simp [arraysToks] at hT
+      subst this
+      have hR' : R = [] := by simpa [arraysToks] using hT
+      subst hR'
+      simp
+    | cons t ts =>
+      simp only [NotKind] at hq
+      simp [hq, ha]
 
 end Shroud.Cxx
